@@ -7,6 +7,11 @@ From Coq Require Import List String.
 Import ListNotations.
 Local Open Scope string_scope.
 
+(* Entries of the form "<translated: gen_x (Gen/F.v)>": the condition at that
+   place is translated from the Go AST into the Gallina function gen_x on every
+   run (translator/purefn.go) and proved equal to the model's decision
+   (Properties/C03P.v, C06P.v); its wording is therefore not pinned, only its
+   presence, place and function. *)
 Definition sess_conditions_v1 : list (string * list string) := [
   ("LogOut", ["if err != nil";
      "if err != nil";
@@ -20,7 +25,7 @@ Definition sess_conditions_v1 : list (string * list string) := [
   ("Session.Delete", []);
   ("Session.Destroy", ["if err := sessions.Delete(id); err != nil";
      "if err != nil"]);
-  ("Session.Expired", ["return s.referenceID != """" && time.Since(s.lastAccess) >= SessionIDGracePeriod || time.Since(s.lastAccess) >= SessionExpiry && time.Since(s.created) >= addDurations(SessionIDExpiry, SessionIDGracePeriod)"]);
+  ("Session.Expired", ["return <translated: gen_Expired (Gen/PureFn.v)>"]);
   ("Session.Get", ["if ok"]);
   ("Session.GetAndDelete", ["if ok";
      "if !ok"]);
@@ -37,21 +42,21 @@ Definition sess_conditions_v1 : list (string * list string) := [
   ("Session.User", []);
   ("Start", ["if userAgent != """"";
      "if err == nil";
-     "if len(id) == 24";
+     "if <translated: gen_lookup_guard (Gen/PureFnIP.v)>";
      "if err != nil";
      "if session == nil";
      "if session != nil";
-     "if timeUntouched >= SessionExpiry";
-     "if valid && AcceptRemoteIP > 1";
-     "if len(previousIP) == 5 && len(currentIP) == 5 && AcceptRemoteIP <= 4";
-     "for i < AcceptRemoteIP";
-     "if previousIP[i] != currentIP[i]";
-     "if valid && !AcceptChangingUserAgent";
+     "if <translated: gen_stale (Gen/PureFn.v)>";
+     "if <translated: gen_ip_ok (Gen/PureFnIP.v)>";
+     "if <translated: gen_ip_ok (Gen/PureFnIP.v)>";
+     "for <translated: gen_ip_loop (Gen/PureFnIP.v)>";
+     "if <translated: gen_ip_loop (Gen/PureFnIP.v)>";
+     "if <translated: gen_ua_ok (Gen/PureFn.v)>";
      "if !valid";
      "if err = session.Destroy(response, request); err != nil";
-     "if session.referenceID == """" && age >= SessionIDExpiry";
+     "if <translated: gen_rotate (Gen/PureFn.v)>";
      "if err != nil";
-     "if age >= addDurations(SessionIDExpiry, SessionIDGracePeriod)";
+     "if <translated: gen_backstop (Gen/PureFn.v)>";
      "if err = sessions.Delete(id); err != nil";
      "if session.referenceID != """"";
      "for session.referenceID != """"";
@@ -61,7 +66,7 @@ Definition sess_conditions_v1 : list (string * list string) := [
      "if !createIfNew";
      "if err != nil";
      "if err = sessions.Set(session); err != nil"]);
-  ("addDurations", ["if a > 0 && b > 0 && sum < 0"]);
+  ("addDurations", ["if <translated: gen_addDurations (Gen/PureFn.v)>"]);
   ("cache.Delete", []);
   ("cache.Get", ["if !ok";
      "if err != nil";
@@ -70,7 +75,7 @@ Definition sess_conditions_v1 : list (string * list string) := [
   ("cache.Set", ["if _, ok := c.sessions[id]; !ok";
      "if MaxSessionCacheSize != 0";
      "if err := Persistence.SaveSession(id, session); err != nil"]);
-  ("cache.compact", ["if age > SessionCacheExpiry";
+  ("cache.compact", ["if <translated: gen_idle (Gen/PureFn.v)>";
      "if err := Persistence.SaveSession(id, session); err != nil";
      "if MaxSessionCacheSize < 0 || len(c.sessions)+requiredSpace <= MaxSessionCacheSize";
      "if requiredSpace > MaxSessionCacheSize";
